@@ -102,6 +102,21 @@ Definition Pinv (s : str) (sep : byte) (i : nat) (x : lst) (e : senv) : Prop :=
   e "i"%string = SZ (Z.of_nat i) /\ e "stack"%string = SK (l_stk x) /\ e "isParseSingleQuotes"%string = SB (l_inq x) /\
   e "tmp"%string = SS (l_tmp x) /\ e "res"%string = SL (l_res x).
 
+Lemma iter_ok (body post : senv -> sflow) (e : senv) (P : senv -> Prop) :
+  match body e with
+  | FNext e1 | FCont e1 => match post e1 with FNext e2 => P e2 | _ => False end
+  | _ => False
+  end ->
+  exists e1 e2, (body e = FNext e1 \/ body e = FCont e1) /\ post e1 = FNext e2 /\ P e2.
+Proof.
+  destruct (body e) as [e1|e1|v|] eqn:Eb; try (intros []); (destruct (post e1) as [e2| | |] eqn:Ep; try (intros []); intros HP;
+    exists e1, e2; split; [auto|split; [exact Ep|exact HP]]).
+Qed.
+
+Ltac bstep H1 H2 H3 H4 H5 H6 H7 H8 Hv Hv0 Hv256 Hi0 :=
+  sstep'; rewrite ?H1, ?H2, ?H3, ?H4, ?H5, ?H6, ?H7, ?H8, ?Nat2Z.id, ?Hv, ?N2Z.id, ?Hv0, ?Hv256, ?Hi0;
+  change 39 with (Z.of_N 39); rewrite ?zn_eqb.
+
 Theorem split_from_source s seps : forallb (fun c => N.ltb c 256) s = true -> (sep_of seps < 256)%N ->
   run_split fn_ValidNamesSplit s seps = Some (names_split (sep_of seps) s).
 Proof.
@@ -135,17 +150,20 @@ Proof.
         - subst cnd. sstep'. rewrite H4, H2. f_equal. apply Z.ltb_lt. apply Nat2Z.inj_lt in Hi. exact Hi.
         - subst bdy.
           assert (Hsi : Z.of_nat i + 1 = Z.of_nat (S i)) by lia.
-          destruct inq; destruct (N.eqb v (sep_of seps)) eqn:Es; destruct (N.eqb v 39) eqn:Eq;
-            destruct (N.eqb (st_last stk) v) eqn:El; destruct (st_is_empty stk) eqn:Ee;
-            (eexists; eexists; split;
-             [repeat (sstep'; rewrite ?H1, ?H2, ?H3, ?H4, ?H5, ?H6, ?H7, ?H8, ?Nat2Z.id, ?Hv, ?N2Z.id, ?Hv0, ?Hv256, ?Hi0;
-                      change 39 with (Z.of_N 39); rewrite ?zn_eqb, ?Es, ?Eq, ?El, ?Ee);
-              first [left; reflexivity|right; reflexivity]
-             |split;
-              [subst pst; repeat (sstep'; rewrite ?H4); reflexivity
-              |unfold Pinv, step1, QUOTE; cbn [l_stk l_inq l_tmp l_res negb andb]; rewrite ?Es, ?Eq, ?El, ?Ee;
+          (* step through the body; split on a condition only when the execution meets it *)
+          apply iter_ok. subst pst.
+          repeat (bstep H1 H2 H3 H4 H5 H6 H7 H8 Hv Hv0 Hv256 Hi0;
+                  try match goal with
+                      | |- context[if inq then _ else _] => destruct inq
+                      | |- context[if N.eqb ?a ?b then _ else _] => destruct (N.eqb a b) eqn:?
+                      | |- context[if st_is_empty ?k then _ else _] => destruct (st_is_empty k) eqn:?
+                      end).
+          all: try match goal with H : false = true |- _ => discriminate H | H : true = false |- _ => discriminate H end.
+          all: unfold Pinv, step1, QUOTE; cbn [l_stk l_inq l_tmp l_res negb andb];
+               repeat match goal with H : N.eqb _ _ = _ |- _ => rewrite H end;
+               repeat match goal with H : st_is_empty _ = _ |- _ => rewrite H end;
                cbn [l_stk l_inq l_tmp l_res negb andb];
-               repeat split; sstep'; rewrite ?H1, ?H2, ?H3, ?H4, ?H5, ?H6, ?H7, ?H8, ?Hsi; reflexivity]]). }
+               repeat split; sstep'; rewrite ?H1, ?H2, ?H3, ?H4, ?H5, ?H6, ?H7, ?H8, ?Hsi; reflexivity. }
       set (x0 := {| l_stk := []; l_inq := false; l_tmp := []; l_res := [] |}).
       assert (Hp0 : Pinv s (sep_of seps) 0 x0 e0).
       { subst e0 x0. unfold Pinv. cbn [l_stk l_inq l_tmp l_res]. repeat split; sstep'; rewrite ?He_s, ?He_d; reflexivity. }
